@@ -62,6 +62,16 @@ Theorem C11_non_enabled_cannot_become_primary :
 Proof. exact non_enabled_not_primary. Qed.
 Print Assumptions C11_non_enabled_cannot_become_primary.
 
+(* The same through the internal AddKeyWithOpts, for every order of its options. *)
+Theorem C11_addopts_non_enabled_cannot_become_primary :
+  forall s req k opts p,
+    apply_opts req (mkPend (match req with Some r => r | None => 0 end)
+                           (match req with Some _ => true | None => false end) Enabled false) opts = Some p ->
+    p_prim p = true -> p_st p <> Enabled ->
+    step s (OAddOpts req k opts) = (s, RErr).
+Proof. exact addopts_non_enabled_primary_rejected. Qed.
+Print Assumptions C11_addopts_non_enabled_cannot_become_primary.
+
 Theorem C11_earlier_handles_unaffected :
   forall ops s, exists l, shandles (fst (run s ops)) = shandles s ++ l.
 Proof. exact run_handles_stable. Qed.
